@@ -10,6 +10,9 @@ CHECKS = {
  "C07": dict(level="proof", technique="Lean 4 projection theorem over all schedules of an action-level model + forced-schedule differential test on the real joblib threads",
    text="PARTIAL. Lean 4 proves for every batch size, worker count and schedule that, if each action of Job.evaluate touches only its own design's record and store row (the footprint built into the model), every complete interleaving yields exactly the serial records, one stored row with the final data per newly evaluated design and exactly one objective call per not-yet-evaluated design (proj_run, schedule_independent, parallel_fields, parallel_eq_serial). That the real threads have this footprint is tested, not proved: schedules are forced on the real joblib threads at objective-call and store-sync gates (with a real SQLite file, including a writer that holds the lock while others retry), the schedule taken is replayed through the model and records, rows and call counts are compared.",
    note="Trusted/assumed: interleavings inside one modelled action (bytecode level under the GIL), SQLite's own locking and joblib's threading backend are exercised, not proved; np.round supplied as a table; Lean kernel + standard axioms.", ref="5/C07"),
+ "C11": dict(level="proof", technique="Lean 4 invariant proof over all event traces and crash points of a commit-level store model + crash-point enumeration (os._exit / SIGKILL) on the real writer",
+   text="PARTIAL. Lean 4 proves for every trace of upsert/commit events on any number of connections (serial or interleaved writers) and every crash point that the rows a reader finds have pairwise distinct ids, are blobs of upserts that were executed and committed before the crash (so any predicate true of every blob handed to the store, e.g. costs match the vector, is true of every row), that a synchronisation whose commit is in the prefix stays present at every later crash point, and that the last single-statement synchronisation wins. SQLite's atomic commit is the model's assumption. The tie to the code is crash-point enumeration: a forked writer (NSGA-II, eps-MOEA, sweep; serial and parallel) is killed at every logged event (objective call, before/after every SQL statement and commit) and at random instants; the file must open through a read-mode view, every row must be complete with costs matching its vector, every synchronisation that had returned must be present, and the raw rows must equal the model's crashAt of the logged prefix (either side of an in-flight commit). PRAGMA journal_mode is monitored.",
+   note="Assumed: SQLite atomic commit / rollback-journal recovery, OS page cache survives process death (no power loss; synchronous=0 is not claimed durable), crashes before the store exists are excluded by the statement. Lean kernel + standard axioms.", ref="5/C11"),
 }
 TODO = {}
 def main():
